@@ -12,6 +12,9 @@ META = dict(
 
 
 def run(chk):
-    shapework.run(chk, 'C02', 1600, 60000, synth=True, synth_kinds=('hostile', 'c06', 'capedge'), flavours=('asan', 'asan-call'), mutated=True)
+    shapework.run(chk, 'C02', 1600, 150000, synth=True, synth_kinds=('hostile', 'c06', 'capedge'), flavours=('asan', 'asan-call'), mutated=True)
+    if chk.tier == 'thorough':
+        from .. import fuzzwork
+        fuzzwork.run_fuzz(chk, 'fz_face', 16 * 800000, seeds_kind=(('hostile', 120), ('capedge', 40)))
     chk.assumptions += ['bound = maxRuleLoop x (slots at pass start + insert budget at pass start + 2), as the property anchor states',
                         'a per-case CPU budget overrun is inconclusive unless it reproduces']
